@@ -48,6 +48,7 @@ func c19Deps() fileSet {
 type c19Import struct {
 	path   string
 	public bool
+	weak   bool
 }
 
 func c19Main(imports []c19Import, body string) string {
@@ -56,6 +57,8 @@ func c19Main(imports []c19Import, body string) string {
 	for _, im := range imports {
 		if im.public {
 			fmt.Fprintf(&b, "import public \"%s\";\n", im.path)
+		} else if im.weak {
+			fmt.Fprintf(&b, "import weak \"%s\";\n", im.path)
 		} else {
 			fmt.Fprintf(&b, "import \"%s\";\n", im.path)
 		}
@@ -66,9 +69,9 @@ func c19Main(imports []c19Import, body string) string {
 
 // C19: unused-import warnings are exact (differential oracle: recompile with the import removed).
 func runC19(h *hx.H) {
-	h.Rule = "inputs: main.proto with imports dep0, dep1, dep2 (each plain or public) and base.proto; each dep is used in one of 8 ways (not at all, field type, extendee, rpc type, custom option name, extension name inside a message literal, Any type URL inside a message literal, only through the dep's own public import) - all 8^3 * 2^3 = 4096 combinations, in two import orders; oracle: for every non-public import, a warning naming it is reported <=> main.proto with that import deleted still compiles and gives the same descriptor apart from the dependency lists; public imports are never reported; non-trivial = workspace with at least one used and one unused import"
+	h.Rule = "inputs: main.proto with imports dep0, dep1, dep2 (each plain, public or weak) and base.proto; each dep is used in one of 8 ways (not at all, field type, extendee, rpc type, custom option name, extension name inside a message literal, Any type URL inside a message literal, only through the dep's own public import) - all 8^3 * 2^3 = 4096 combinations, in two import orders; oracle: for every non-public import, a warning naming it is reported <=> main.proto with that import deleted still compiles and gives the same descriptor apart from the dependency lists; public imports are never reported; non-trivial = workspace with at least one used and one unused import"
 	deps := c19Deps()
-	for order := 0; order < 2; order++ {
+	for order := 0; order < 4; order++ { // bit 0: imports in reverse order; bit 1: the non-public ones of dep0/dep1 are `import weak`
 		for code := 0; code < 8*8*8*8; code++ {
 			idx, run := h.NextN()
 			if !run {
@@ -87,11 +90,11 @@ func checkUnused(h *hx.H, idx int64, deps fileSet, uses [3]int, pubs, order int)
 	var imports []c19Import
 	var body strings.Builder
 	for k := 0; k < 3; k++ {
-		imports = append(imports, c19Import{fmt.Sprintf("dep%d.proto", k), pubs>>k&1 == 1})
+		imports = append(imports, c19Import{fmt.Sprintf("dep%d.proto", k), pubs>>k&1 == 1, order&2 != 0 && pubs>>k&1 == 0 && k < 2})
 		body.WriteString(useStmt(k, uses[k]))
 	}
-	imports = append(imports, c19Import{"base.proto", false})
-	if order == 1 {
+	imports = append(imports, c19Import{"base.proto", false, false})
+	if order&1 == 1 {
 		for i, j := 0, len(imports)-1; i < j; i, j = i+1, j-1 {
 			imports[i], imports[j] = imports[j], imports[i]
 		}
